@@ -39,7 +39,7 @@ TraceReq ==
 
 TraceEnd ==
   /\ IsEv("End") /\ l' = l + 1
-  /\ (KeyFail \/ DownloadFail \/ CleanupFail \/ CleanupOk \/ (Downloaded /\ ~cli))
+  /\ (KeyFail \/ ParserCrash \/ DownloadFail \/ CleanupFail \/ CleanupOk \/ (Downloaded /\ ~cli))
   /\ pc' = "done" /\ exit' = Rec.exit /\ Cardinality(tmp') = Rec.tmp
   /\ Cardinality(outs') = Rec.outs
 
